@@ -87,6 +87,7 @@ func runC13(c *Ctx, r *Rec) {
 	checkReceiverWrites(c, r, "D4-receiver-writes-persist", stk)
 	checkResetCompleteness(c, r, "D4-reset-complete", stk)
 	checkReadersWriteNothing(c, r, "D4-readers-write-nothing", stk)
+	checkUnsignedExtremes(c, r, "D2-unsigned-extremes", fileFuncs(c, "collection", stk), map[*types.Var]bool{capF.Origin(): true})
 	checkMakeLenThenAppend(c, r, "D1-made-length-not-appended-to", append(fileFuncs(c, "collection", stk), c.allFuncDecls("module")...))
 	checkTypeLockPairing(c, r, "D4-lock-released", stk)
 	// ---- D1 constructors
